@@ -14,8 +14,9 @@ import (
 // (wire constants resolved through notation-plugin-framework-go), the `algorithms` map of
 // signer/plugin.go, the payload media type, the JSON tags of envelope.Payload, the fields kept
 // by SanitizeTargetArtifact, and the shape of areUnknownAttributesAdded (looked-up key, list
-// of deleted "known" descriptor keys, whether the type assertion is the checked two-value
-// form followed by an `if !ok { return … }`).
+// of deleted "known" descriptor keys). That the type assertion is the checked form and that duplicate
+// member names are refused is no longer a syntactic fact: it is proved from the translated source
+// (go2lean_c18.go, Props/C18.lean section Tie).
 func init() { families = append(families, family{"C18", genC18}) }
 
 func c18Pairs(ps [][2]string) string {
@@ -184,6 +185,18 @@ func genC18() string {
 	fmt.Fprintf(&b, "/-- `EncodeSigningAlgorithm`: (signature.Algorithm…, wire name) -/\ndef c18EncodeSigAlg : List (String × String) :=\n  %s\n\n", c18Pairs(encAlg))
 	fmt.Fprintf(&b, "/-- `DecodeSigningAlgorithm`: (wire name, signature.Algorithm…) -/\ndef c18DecodeSigAlg : List (String × String) :=\n  %s\n\n", c18Pairs(decAlg))
 
+	// the wire constants of the framework the translated codecs mention by name
+	var wc [][2]string
+	for _, n := range []string{"KeySpecRSA2048", "KeySpecRSA3072", "KeySpecRSA4096", "KeySpecEC256", "KeySpecEC384", "KeySpecEC521",
+		"HashAlgorithmSHA256", "HashAlgorithmSHA384", "HashAlgorithmSHA512"} {
+		v, ok := wire[n]
+		if !ok {
+			fail("notation-plugin-framework-go/plugin/algorithm.go: constant %s not found", n)
+		}
+		wc = append(wc, [2]string{n, v})
+	}
+	fmt.Fprintf(&b, "/-- constants of notation-plugin-framework-go/plugin/algorithm.go: (name, value) -/\ndef c18WireConstants : List (String × String) :=\n  %s\n\n", c18Pairs(wc))
+
 	// signer/plugin.go
 	const pf = "signer/plugin.go"
 	p := parseFile(pf)
@@ -210,37 +223,10 @@ func genC18() string {
 		order = append(order, callName(call))
 	}
 	fmt.Fprintf(&b, "/-- the checks generateSignatureEnvelope runs on the plugin's answer, in source order -/\ndef c18EnvelopeChecks : List String := %s\n\n", leanStrList(order))
-	// findDuplicateKey must exist, walk json.Decoder tokens and report a repeated key
-	dupOK := false
-	if fdk := findFunc(p, "", "findDuplicateKey"); fdk != nil {
-		dupOK = len(callsIn(fdk.Body, "dec.Token")) > 0 && len(callsIn(fdk.Body, "json.NewDecoder")) > 0
-	}
-	guarded2 := false
-	for _, st := range gse.Body.List {
-		ifs, ok := st.(*ast.IfStmt)
-		if !ok || ifs.Init == nil {
-			continue
-		}
-		as, ok := ifs.Init.(*ast.AssignStmt)
-		if !ok || len(as.Rhs) != 1 || len(as.Lhs) != 2 {
-			continue
-		}
-		if call, ok := as.Rhs[0].(*ast.CallExpr); ok && callName(call) == "findDuplicateKey" && exprText(ifs.Cond) == exprText(as.Lhs[1]) {
-			for _, bs := range ifs.Body.List {
-				if r, ok := bs.(*ast.ReturnStmt); ok && len(r.Results) == 3 && exprText(r.Results[0]) == "nil" {
-					guarded2 = true
-				}
-			}
-		}
-	}
-	fmt.Fprintf(&b, "/-- `if key, found := findDuplicateKey(content); found { return nil, nil, err }` is present and\nfindDuplicateKey is a json.Decoder token walk -/\ndef c18DuplicateKeysRejected : Bool := %s\n\n", leanBool(dupOK && guarded2))
-
 	// areUnknownAttributesAdded
 	fd := mustFunc(p, pf, "", "areUnknownAttributesAdded")
 	var known []string
 	topVar, descVar, lookedUp, deletedTop := "", "", "", ""
-	checked, guarded := false, false
-	okVar := ""
 	for _, st := range fd.Body.List {
 		switch s := st.(type) {
 		case *ast.AssignStmt:
@@ -255,18 +241,6 @@ func genC18() string {
 					descVar = exprText(s.Lhs[0])
 					if t := nodeText(ta.Type); t != "map[string]interface{}" && t != "map[string]any" {
 						fail("%s: areUnknownAttributesAdded: unexpected asserted type %s", pf, nodeText(ta.Type))
-					}
-					if len(s.Lhs) == 2 {
-						checked = true
-						okVar = exprText(s.Lhs[1])
-					}
-				}
-			}
-		case *ast.IfStmt:
-			if checked && exprText(s.Cond) == "!"+okVar {
-				for _, bs := range s.Body.List {
-					if _, ok := bs.(*ast.ReturnStmt); ok {
-						guarded = true
 					}
 				}
 			}
@@ -289,7 +263,6 @@ func genC18() string {
 	}
 	fmt.Fprintf(&b, "/-- the top-level key areUnknownAttributesAdded looks up (and deletes) -/\ndef c18TargetKey : String := %s\n\n", leanStr(lookedUp))
 	fmt.Fprintf(&b, "/-- the descriptor keys areUnknownAttributesAdded deletes as known, in source order -/\ndef c18KnownDescriptorKeys : List String := %s\n\n", leanStrList(known))
-	fmt.Fprintf(&b, "/-- the type assertion on the looked-up value is the two-value form and `if !ok` returns -/\ndef c18AssertionChecked : Bool := %s\n\n", leanBool(checked && guarded))
 
 	// internal/envelope/envelope.go
 	const ef = "internal/envelope/envelope.go"
